@@ -1495,6 +1495,9 @@ class Key(object):
         key.private_byte = None
         key.private_hex = None
         key.secret = None
+        # Cached WIF of the private key
+        key._wif = None
+        key._wif_prefix = None
         return key
 
     def public_point(self):
@@ -2337,6 +2340,9 @@ class HDKey(Key):
         hdkey.secret = None
         hdkey.private_hex = None
         hdkey.private_byte = None
+        # Cached WIF of the private key
+        hdkey._wif = None
+        hdkey._wif_prefix = None
         hdkey.key_hex = hdkey.public_hex
         # hdkey.key = self.key.public()
         return hdkey
